@@ -12,6 +12,8 @@
 -/
 import ASV.Proofs.ModulesPartition
 import ASV.Proofs.ModulesChain
+import ASV.Proofs.ModulesLayoutIdx
+import ASV.Proofs.ModulesLayoutFacts
 namespace ASV.C14
 open ASV ASV.Modules ASV.Modules.T
 
@@ -203,6 +205,53 @@ theorem chain_total (genes : List Gene) (h : ∀ g ∈ genes, InputOK g.domains 
   intro r hrm m hm
   obtain ⟨r0, hr0, rfl⟩ := List.mem_map.mp hrm
   exact hg r0 hr0 m (List.mem_filter.mp hm).1
+
+/-- the layout predicate read with indices: position `i` is checked against the components
+    before it and after it -/
+theorem layout_by_index (cs : List Comp) : Spec.layout cs = Spec.layoutIdx cs :=
+  Spec.layout_eq_layoutIdx cs
+
+/-- what `Spec.layout` says in the words of the property: at most one loader, at most one
+    terminating domain, an explicit starter only as the very first component (so at most one),
+    and a carrier protein after the first one only directly in front of a double-transporter pair
+    (so exactly one carrier protein otherwise) -/
+theorem layout_reading (cs : List Comp) (h : Spec.layout cs = true) :
+    (cs.filter Comp.isLoader).length ≤ 1
+    ∧ (cs.filter Comp.isEnd).length ≤ 1
+    ∧ (∀ c ∈ cs.drop 1, Spec.pureStarter c = false)
+    ∧ (∀ a c b, cs = a ++ c :: b → c.isCarrierProtein = true → Spec.hasCarrier a = true →
+         Spec.dtPair b = true) := by
+  refine ⟨?_, ?_, ?_, ?_⟩
+  · simpa using layoutFrom_atMostOne Comp.isLoader positionOK_loader cs [] h (by simp)
+  · simpa using layoutFrom_atMostOne Comp.isEnd positionOK_end cs [] h (by simp)
+  · cases cs with
+    | nil => intro c hc; simp at hc
+    | cons x rest =>
+      unfold Spec.layout at h
+      simp only [Spec.layoutFrom, Bool.and_eq_true] at h
+      simpa using layoutFrom_starter_first rest ([] ++ [x]) h.2 (by simp)
+  · intro a c b he hc hh
+    exact layoutFrom_carrier cs [] h a c b he hc (by simpa using hh)
+
+/-- TABLE FACTS the proofs rest on, re-checked against the regenerated tables on every build:
+    every loader-capable label is starter-capable; a label is in at most one of the classes
+    ignored / special / starter-or-loader / modification / carrier protein / end; the
+    double-transporter cases are pairs of modification labels; the trans-AT docking label is
+    `special`; the post-carrier KR label is a modification and is the label combine_modules uses -/
+theorem table_facts :
+    (∀ c : Comp, c.isLoader = true → c.isStarter = true)
+    ∧ (∀ c : Comp, (kindOf c).bits = ⟨c.isIgnored, c.isSpecial, c.isStarter, c.isLoader, c.isModification,
+                                        c.isCarrierProtein, c.isEnd⟩)
+    ∧ (∀ case ∈ doubleTransporterCases, case.length = 2 ∧ ∀ l ∈ case, kindOfLabel l = .modification)
+    ∧ kindOfLabel transAtDocking = .special
+    ∧ kindOfLabel transAtKrLabel = .modification
+    ∧ trailingKrLabel = transAtKrLabel := by
+  refine ⟨?_, ?_, ?_, docking_kind, kr_kind, kr_same⟩
+  · intro c h
+    rw [isLoader_eq] at h; rw [isStarter_eq]
+    cases hk : kindOf c <;> simp [hk, Kind.bits] at h ⊢
+  · intro c; exact (bits_kindOf c).symm
+  · intro case h; exact ⟨dt_cases_len case h, dt_cases_mod case h⟩
 
 /-! ### non-vacuity: concrete inputs on which the interesting branches fire
     (`buildGo` on already sorted components, so that `decide` can run it) -/
